@@ -28,7 +28,9 @@ PROP = dict(
     regen=['mesgdef', 'profiletables13'],
     theorems=['Fit.C13.C13_tables_wf', 'Fit.C13.C13_tables_expressible', 'Fit.C13.C13_tables_match_factory', 'Fit.C13.C13_std_factory_ok', 'Fit.C13.C13_zero_time',
               'Fit.C13.C13_mesg_struct_mesg', 'Fit.C13.C13_struct_mesg_struct', 'Fit.C13.C13_no_panic', 'Fit.C13.C13_unknown_kept',
-              'Fit.C13.C13_nil_fieldbase_panics', 'Fit.C13.C13_slot_read_emit', 'Fit.C13.C13_all_messages', 'Fit.C13.C13_mark_as_expanded', 'Fit.C13.C13_spec_valid_is_protocol_valid'],
+              'Fit.C13.C13_nil_fieldbase_panics', 'Fit.C13.C13_slot_read_emit', 'Fit.C13.C13_all_messages', 'Fit.C13.C13_mark_as_expanded', 'Fit.C13.C13_spec_valid_is_protocol_valid',
+              'Fit.C13.C13_normal_idempotent', 'Fit.C13.C13_normal_is_fixed_point', 'Fit.C13.C13_spec_valid_fixed_arrays',
+              'Fit.C13.C13_mesg_struct_mesg_partial', 'Fit.C13.C13_KF_witnesses', 'Fit.C13.C13_full_is_false'],
     families=[dict(name='typed', spec=True)],
     trusted_base=STD_TRUST + [
         "fitharness regen mesgdef: the per-message tables (slot kinds, accepted value type, read/emit field number, default, sentinel, emission order, guard, expanded-bitmap bound, eligible numbers) are obtained from the COMPILED code by reflection over the structs and by probing Reset/ToMesg/MarkAsExpandedField/IsExpandedField with one field per number 0..255 x 24 value types and candidate contents per slot; a behaviour the table cannot express fails the translator",
@@ -36,11 +38,11 @@ PROP = dict(
         "family typed: structs are built/read by reflection (unsafe only to move float32 bit patterns without quieting NaNs)",
     ],
     assumptions=["time.Time slots: whole seconds (the property's restriction); uint32(float64) of an out-of-range duration is platform-defined and outside InRange",
-                 "a proto.Value built from a nil Go slice is not expressible in the line protocol (it reads as nil, like a value of another type)"],
+                 "a proto.Value built from a nil Go slice has no syntax in the line protocol; the op typednils hands every empty array of its message to the code as a nil slice, and the model reads it as the invalid value (what the accessors return)"],
 )
 
 TEXT = dict(
     technique='Lean 4 proof of generic round-trip / no-panic theorems for ONE table-driven model of the mesgdef template, for every table satisfying a decidable well-formedness predicate; the predicate is kernel-checked on the 119 tables regenerated from the compiled code by reflection and probing; differential tie through the real NewXxx/ToMesg of every message type',
-    text='C13_mesg_struct_mesg (NewXxx(&m).ToMesg(o) = typedNormal m: last occurrence of each known field, kept iff its value has the field\'s type and is not the base type\'s invalid, fixed arrays padded/cut, expanded marks on eligible numbers, unknown and developer fields unchanged and in order), C13_struct_mesg_struct (identity on structs in range: whole-second times in the uint32 range, marks on eligible emitted slots, UnknownFields unknown to the message) and C13_no_panic (any numbers, any value types; only a nil FieldBase panics) are proved once for every table satisfying MesgTable.wf, for all messages/structs/factories/options; wf, coverage of the factory\'s messages and fields, and the standard factory\'s fitness are kernel-checked on the 119 tables regenerated from the compiled code; the family typed runs the real NewXxx/ToMesg of every message type (every slot valid/invalid/boundary x marked, every other value type, field numbers 0..255 named and unknown, random messages with duplicates/unknown/developer fields under 9 option/factory settings, reflection-built structs through ToMesg and back) against model and typedNormal.',
-    note='Trusted: Lean kernel; the probing translator (reflection + probing of the compiled mesgdef package) and the factory dump; harness/driver protocol. Formalisation choices (typedNormal, inRange) are stated in FitProps/C13.lean: marks kept only for eligible numbers, named fields with a number the message lacks are dropped, sub-second times and out-of-range times outside the identity.',
+    text='C13_mesg_struct_mesg (NewXxx(&m).ToMesg(o) = typedNormal m: last occurrence of each known field, kept iff its value has the field\'s type and is not the base type\'s invalid, fixed arrays padded/cut, expanded marks on eligible numbers, unknown and developer fields unchanged and in order), C13_struct_mesg_struct (identity on structs in range: whole-second times in the uint32 range, marks on eligible emitted slots, UnknownFields unknown to the message) and C13_no_panic (any numbers, any value types; only a nil FieldBase panics) are proved once for every table satisfying MesgTable.wf, for all messages/structs/factories/options; wf, coverage of the factory\'s messages and fields, and the standard factory\'s fitness are kernel-checked on the 119 tables regenerated from the compiled code; the family typed runs the real NewXxx/ToMesg of every message type (every slot valid/invalid/boundary x marked, every other value type, field numbers 0..255 named and unknown, random messages with duplicates/unknown/developer fields under 9 option/factory settings, reflection-built structs through ToMesg and back) against model and against typedNormalFull, the normal form the property demands: the code (typedNormal, C13_mesg_struct_mesg) meets it outside two classes (C13_mesg_struct_mesg_partial) and not inside them — a named field whose number the message lacks is dropped (KF-C13-1), the expanded mark of a non-component-target field is not kept (KF-C13-2): C13_KF_witnesses, C13_full_is_false. Second wave: typedNormal is idempotent and its values are fixed points of NewXxx/ToMesg (C13_normal_idempotent, C13_normal_is_fixed_point); fixed-length arrays are kept exactly when Value.Valid holds of the part that fits (C13_spec_valid_fixed_arrays); array values built from nil Go slices read as invalid (op typednils).',
+    note='Trusted: Lean kernel; the probing translator (reflection + probing of the compiled mesgdef package) and the factory dump; harness/driver protocol. Formalisation choices (typedNormal = the code, typedNormalFull = the property, inRange) are stated in FitProps/C13.lean; sub-second times and out-of-range times are outside the struct identity.',
 )
